@@ -246,7 +246,7 @@ namespace Muxide
 
 /-- which reading of `decoder_model_info_present_flag` the *current* /repo code implements
     (see DESIGN.md C07; flipped together with the `fix:` commit in /repo). -/
-def av1FixedDmi : Bool := false
+def av1FixedDmi : Bool := true
 
 /-- `parse_sequence_header(obu_data, header_size)` -/
 def parseSequenceHeader (obu : Bytes) (hs : Nat) : Av1Res :=
